@@ -102,7 +102,22 @@ theorem step_stmt {F : FloatOps} {n : Nat} (ih : AllS F n) (st : Stmt) (hsz : si
     | some e => exact good_return1 F B pos e h
   | if_ pos init c bp body els =>
     cases init with
-    | some i => cases els <;> cases h
+    | some i =>
+      cases els with
+      | none =>
+        have h' : (StmtF B i && (ExprF (bnd (defsOf B i)) c && !isBoolLit c) && StmtsF (defsOf B i) body) = true := h
+        simp only [Bool.and_eq_true, Bool.not_eq_true'] at h'
+        have hI := ih.stmt i (by ssz) B h'.1.1
+        have hT := good_blockOf F (defsOf B i) _ _ body (ih.stmts body (by ssz) _ h'.2)
+        exact (good_ifInitStmt F B _ pos bp i c body h'.1.2.1 h'.1.2.2 _ _ hI hT).toC
+      | some e' =>
+        have h' : (StmtF B i && (ExprF (bnd (defsOf B i)) c && !isBoolLit c) && StmtsF (defsOf B i) body &&
+          ElseF (defsOf B i) e') = true := h
+        simp only [Bool.and_eq_true, Bool.not_eq_true'] at h'
+        have hI := ih.stmt i (by ssz) B h'.1.1.1
+        have hT := good_blockOf F (defsOf B i) _ _ body (ih.stmts body (by ssz) _ h'.1.2)
+        exact (good_ifInitElseStmt F B _ pos bp i c body e' h'.1.1.2.1 h'.1.1.2.2 _ _ _ hI hT
+          (ih.els e' (by ssz) _ h'.2)).toC
     | none =>
       cases els with
       | none =>
